@@ -449,7 +449,7 @@ def call_macro_case(rnd):
 
 
 PROC_REST_ATOMS = ["a", "-l", "--x=1", "'q r'", '"s,t"', "1", "b/c", "&&", "|", ">", "if", "import", "$X", "*.py", ";", "x=y", "é", "..", "h",
-                   "{a}", "${x}", 'f"a{b}"', "→", "`a*`", "ﬁx", "# c\n", "{'k': [1, (2)]}", "@(f!(a b, c))", "x?", "2>&1", "\"(\"", "p'/t'", "$(ls)"]
+                   "{a}", "${x}", 'f"a{b}"', "→", "`a*`", "ﬁx", "# c\n", "{'k': [1, (2)]}", "@(f!(a b, c))", "x?", "2>&1", "\"(\"", "p'/t'", "$(ls)", "@$(which ls)", "@$(a @$(b))", "@(x)", "![q]", "$[r s]", "!(t)", "a@$(u)b"]
 
 
 def proc_rest(rnd, d=0) -> str:
@@ -459,7 +459,7 @@ def proc_rest(rnd, d=0) -> str:
         if r < 0.8 or d >= 3:
             parts.append(rnd.choice(PROC_REST_ATOMS))
         else:
-            o, c = rnd.choice([("(", ")"), ("[", "]"), ("{", "}")])
+            o, c = rnd.choice([("(", ")"), ("[", "]"), ("{", "}"), ("(", ")"), ("[", "]"), ("$(", ")"), ("@$(", ")"), ("@(", ")"), ("![", "]"), ("$[", "]"), ("!(", ")"), ("${", "}")])
             parts.append(o + proc_rest(rnd, d + 1) + c)
     out = ""
     for p in parts:
@@ -474,7 +474,7 @@ def proc_macro_case(rnd):
     cmd = rnd.choice(["echo", "bash", "git", "python3", "ls"])
     rest = proc_rest(rnd)
     lead = rnd.choice([" ", " ", "  ", "\t", "", "\n    ", " \n"])
-    if rest[:1] in ("(", "["):
+    if rest[:1] in ("(", "[", "!"):
         lead = lead or " "  # 'cmd!(' / 'cmd![' would be another construct
     trail = rnd.choice(["", "", " ", "  ", "\n", " \n  "])
     if rest == "" and rnd.random() < 0.5:
